@@ -65,6 +65,27 @@ func HostileHas(r R, depth int) *gripql.HasExpression {
 			return &gripql.HasExpression{} // no expression at all
 		}
 	}
+	if r.Chance(12) {
+		// a list or an object on both sides of a membership/equality test: the
+		// operand mirrors the shape of what the elements store under that key
+		key := pick(r, []string{"t", "o", "_data", "$m0.t", "o.a", "l"})
+		var operand interface{}
+		switch r.Intn(5) {
+		case 0:
+			operand = []interface{}{[]interface{}{"p", "q"}}
+		case 1:
+			operand = []interface{}{map[string]interface{}{"a": 1.0}, []interface{}{}}
+		case 2:
+			operand = []interface{}{"p", []interface{}{"p"}, map[string]interface{}{}}
+		case 3:
+			operand = map[string]interface{}{"a": 1.0}
+		default:
+			operand = []interface{}{[]interface{}{[]interface{}{}}}
+		}
+		pv, _ := structpb.NewValue(operand)
+		cond := []gripql.Condition{gripql.Condition_WITHIN, gripql.Condition_WITHOUT, gripql.Condition_CONTAINS, gripql.Condition_EQ, gripql.Condition_NEQ}[r.Intn(5)]
+		return &gripql.HasExpression{Expression: &gripql.HasExpression_Condition{Condition: &gripql.HasCondition{Key: key, Value: pv, Condition: cond}}}
+	}
 	v, _ := structpb.NewValue(hostileJSON(r, 2))
 	if r.Chance(5) {
 		v = nil
